@@ -89,7 +89,7 @@ def gate(pid, n):
     allm = []
     for f in files:
         r = subprocess.run([mb, "/repo/" + f], stdout=subprocess.PIPE, text=True)
-        for m in json.loads(r.stdout or "[]"):
+        for m in (json.loads(r.stdout or "[]") or []):
             m["file"] = f
             m["id"] = hashlib.sha1(("%s:%d:%d:%s" % (f, m["start"], m["end"], m["repl"])).encode()).hexdigest()[:10]
             allm.append(m)
